@@ -1090,4 +1090,254 @@ theorem disconnectChans_noop (g : G) (cs : List Nat) (h : ∀ c ∈ cs, g.conns 
     rw [this]
     exact ih (fun c' hc' => h c' (List.mem_cons_of_mem _ hc'))
 
+/-! ## value links -/
+
+/-- the links after forging: the old ones overwritten in order -/
+def overwrite (r : Nat → Option Nat) : List (Nat × Nat) → Nat → Option Nat
+  | [] => r
+  | (s, x) :: ls => overwrite (updF r s (some x)) ls
+
+theorem forgeSoft_shape (fuel : Nat) : ∀ (links : List (Nat × Nat)) (w : W),
+    ∃ f, forgeSoft fuel w links = { w with val := f, recv := overwrite w.recv links } := by
+  intro links
+  induction links with
+  | nil => intro w; exact ⟨w.val, rfl⟩
+  | cons l ls ih =>
+    intro w
+    obtain ⟨s, r⟩ := l
+    unfold forgeSoft
+    dsimp only
+    have hv : ValOnly { w with recv := updF w.recv s (some r) }
+        ((setValF { w with recv := updF w.recv s (some r) } fuel r (w.val s)).getD
+          { w with recv := updF w.recv s (some r) }) := by
+      cases hs : setValF { w with recv := updF w.recv s (some r) } fuel r (w.val s) with
+      | none => exact .refl _
+      | some w2 => exact setValF_val _ fuel r _ w2 hs
+    obtain ⟨f1, hf1⟩ := hv
+    rw [hf1]
+    obtain ⟨f, hf⟩ := ih { w with recv := updF w.recv s (some r), val := f1 }
+    exact ⟨f, by rw [hf]; rfl⟩
+
+theorem overwrite_not_mem (r : Nat → Option Nat) : ∀ (links : List (Nat × Nat)) (s : Nat),
+    (∀ x, (s, x) ∉ links) → overwrite r links s = r s := by
+  intro links
+  induction links generalizing r with
+  | nil => intro s _; rfl
+  | cons l ls ih =>
+    intro s h
+    obtain ⟨s', x⟩ := l
+    unfold overwrite
+    rw [ih _ s (fun y hy => h y (List.mem_cons_of_mem _ hy))]
+    have : s ≠ s' := by
+      intro e; subst e; exact h x (List.mem_cons_self ..)
+    simp [updF, this]
+
+theorem overwrite_mem (r : Nat → Option Nat) : ∀ (links : List (Nat × Nat)) (s x : Nat),
+    (links.map Prod.fst).Nodup → (s, x) ∈ links → overwrite r links s = some x := by
+  intro links
+  induction links generalizing r with
+  | nil => intro s x _ h; cases h
+  | cons l ls ih =>
+    intro s x hn h
+    obtain ⟨s', x'⟩ := l
+    simp only [List.map_cons, List.nodup_cons] at hn
+    unfold overwrite
+    rcases List.mem_cons.mp h with heq | h'
+    · simp only [Prod.mk.injEq] at heq
+      obtain ⟨rfl, rfl⟩ := heq
+      rw [overwrite_not_mem _ ls s (fun y hy => hn.1 (List.mem_map.mpr ⟨(s, y), hy, rfl⟩))]
+      simp [updF]
+    · exact ih _ s x hn.2 h'
+
+theorem linksIn_spec (w : W) (old new : Nat) : ∀ (ss : List Nat) (li : List (Nat × Nat)),
+    linksIn w old new ss = some li →
+    (∀ s nr, (s, nr) ∈ li → s ∈ ss ∧ ∃ r, w.recv s = some r ∧ r ∈ (w.io old).inp ∧
+      findLab w (w.io new).inp (w.clab r) = some nr) ∧
+    (∀ s r, s ∈ ss → w.recv s = some r → r ∈ (w.io old).inp → ∃ nr, (s, nr) ∈ li) := by
+  intro ss
+  induction ss with
+  | nil =>
+    intro li h
+    simp only [linksIn, Option.some.injEq] at h
+    subst h
+    exact ⟨fun _ _ h => (nomatch h), fun _ _ h => (nomatch h)⟩
+  | cons s ss ih =>
+    intro li h
+    unfold linksIn at h
+    cases hr : w.recv s with
+    | none =>
+      simp only [hr] at h
+      obtain ⟨h1, h2⟩ := ih li h
+      refine ⟨fun a b hab => ?_, fun a r ha hra hro => ?_⟩
+      · obtain ⟨x, y⟩ := h1 a b hab; exact ⟨List.mem_cons_of_mem _ x, y⟩
+      · rcases List.mem_cons.mp ha with rfl | ha'
+        · rw [hr] at hra; cases hra
+        · exact h2 a r ha' hra hro
+    | some r =>
+      simp only [hr] at h
+      by_cases hro : r ∈ (w.io old).inp
+      · rw [if_pos hro] at h
+        cases hf : findLab w (w.io new).inp (w.clab r) with
+        | none => simp [hf] at h
+        | some nr =>
+          simp only [hf] at h
+          cases hrest : linksIn w old new ss with
+          | none => simp [hrest] at h
+          | some li' =>
+            simp only [hrest, Option.map_some, Option.some.injEq] at h
+            subst h
+            obtain ⟨h1, h2⟩ := ih li' hrest
+            refine ⟨fun a b hab => ?_, fun a r' ha hra hro' => ?_⟩
+            · rcases List.mem_cons.mp hab with heq | hab'
+              · simp only [Prod.mk.injEq] at heq
+                obtain ⟨rfl, rfl⟩ := heq
+                exact ⟨List.mem_cons_self .., r, hr, hro, hf⟩
+              · obtain ⟨x, y⟩ := h1 a b hab'; exact ⟨List.mem_cons_of_mem _ x, y⟩
+            · rcases List.mem_cons.mp ha with rfl | ha'
+              · exact ⟨nr, List.mem_cons_self ..⟩
+              · obtain ⟨n', hn'⟩ := h2 a r' ha' hra hro'
+                exact ⟨n', List.mem_cons_of_mem _ hn'⟩
+      · rw [if_neg hro] at h
+        obtain ⟨h1, h2⟩ := ih li h
+        refine ⟨fun a b hab => ?_, fun a r' ha hra hro' => ?_⟩
+        · obtain ⟨x, y⟩ := h1 a b hab; exact ⟨List.mem_cons_of_mem _ x, y⟩
+        · rcases List.mem_cons.mp ha with rfl | ha'
+          · rw [hr] at hra; cases hra; exact absurd hro' hro
+          · exact h2 a r' ha' hra hro'
+
+theorem linksOut_spec (w : W) (p new : Nat) : ∀ (cs : List Nat) (lo : List (Nat × Nat)),
+    linksOut w p new cs = some lo →
+    (∀ nc r, (nc, r) ∈ lo → ∃ c, c ∈ cs ∧ w.recv c = some r ∧ r ∈ (w.io p).out ∧
+      findLab w (w.io new).out (w.clab c) = some nc) ∧
+    (∀ c r, c ∈ cs → w.recv c = some r → r ∈ (w.io p).out → ∃ nc, (nc, r) ∈ lo ∧
+      findLab w (w.io new).out (w.clab c) = some nc) := by
+  intro cs
+  induction cs with
+  | nil =>
+    intro lo h
+    simp only [linksOut, Option.some.injEq] at h
+    subst h
+    exact ⟨fun _ _ h => (nomatch h), fun _ _ h => (nomatch h)⟩
+  | cons c cs ih =>
+    intro lo h
+    unfold linksOut at h
+    cases hr : w.recv c with
+    | none =>
+      simp only [hr] at h
+      obtain ⟨h1, h2⟩ := ih lo h
+      refine ⟨fun a b hab => ?_, fun a r ha hra hro => ?_⟩
+      · obtain ⟨c', x, y⟩ := h1 a b hab; exact ⟨c', List.mem_cons_of_mem _ x, y⟩
+      · rcases List.mem_cons.mp ha with rfl | ha'
+        · rw [hr] at hra; cases hra
+        · exact h2 a r ha' hra hro
+    | some r =>
+      simp only [hr] at h
+      by_cases hro : r ∈ (w.io p).out
+      · rw [if_pos hro] at h
+        cases hf : findLab w (w.io new).out (w.clab c) with
+        | none => simp [hf] at h
+        | some nc =>
+          simp only [hf] at h
+          cases hrest : linksOut w p new cs with
+          | none => simp [hrest] at h
+          | some lo' =>
+            simp only [hrest, Option.map_some, Option.some.injEq] at h
+            subst h
+            obtain ⟨h1, h2⟩ := ih lo' hrest
+            refine ⟨fun a b hab => ?_, fun a r' ha hra hro' => ?_⟩
+            · rcases List.mem_cons.mp hab with heq | hab'
+              · simp only [Prod.mk.injEq] at heq
+                obtain ⟨rfl, rfl⟩ := heq
+                exact ⟨c, List.mem_cons_self .., hr, hro, hf⟩
+              · obtain ⟨c', x, y⟩ := h1 a b hab'; exact ⟨c', List.mem_cons_of_mem _ x, y⟩
+            · rcases List.mem_cons.mp ha with rfl | ha'
+              · rw [hr] at hra; cases hra
+                exact ⟨nc, List.mem_cons_self .., hf⟩
+              · obtain ⟨n', hn', hf'⟩ := h2 a r' ha' hra hro'
+                exact ⟨n', List.mem_cons_of_mem _ hn', hf'⟩
+      · rw [if_neg hro] at h
+        obtain ⟨h1, h2⟩ := ih lo h
+        refine ⟨fun a b hab => ?_, fun a r' ha hra hro' => ?_⟩
+        · obtain ⟨c', x, y⟩ := h1 a b hab; exact ⟨c', List.mem_cons_of_mem _ x, y⟩
+        · rcases List.mem_cons.mp ha with rfl | ha'
+          · rw [hr] at hra; cases hra; exact absurd hro' hro
+          · exact h2 a r' ha' hra hro'
+
+/-! ## the shape of a successful replacement (all repairs in place) -/
+
+/-- the ownership side of the result -/
+def tAfter (t : Tree.Tree) (p old new : Nat) : Tree.Tree :=
+  let t4 := adopt (swapLabels (Tree.removeCore0 t p old) new old) p new
+  if old ∈ t.starting p then { t4 with starting := updF t4.starting p (t4.starting p ++ [new]) } else t4
+
+theorem compReplace_ok_shape (fuel : Nat) (w : W) (p old new : Nat) (w' : W)
+    (h : compReplace (Cfg.repaired fuel) w p old new = (w', .ok)) :
+    w.t.parent old = some p ∧ w.t.parent new = none ∧ nodeConnected w new = false ∧
+    adoptRefusal fuel w.t p new = .ok ∧
+    ∃ links f, linksOf w p old new = .ok links ∧ linksValid w links = true ∧
+      (copyPairs true w.g true (ioPairs w new old) []).2.2 = false ∧
+      w' = forgeSoft fuel
+        { w with val := f, t := tAfter w.t p old new,
+                 g := disconnectChans
+                   (seat { w with g := (copyPairs true w.g true (ioPairs w new old) []).1, val := f } new old)
+                   (w.io old).all } links := by
+  unfold compReplace at h
+  by_cases h1 : w.t.parent old ≠ some p
+  · rw [if_pos h1] at h; simp at h
+  · rw [if_neg h1] at h
+    by_cases h2 : w.t.parent new ≠ none
+    · rw [if_pos h2] at h; simp at h
+    · rw [if_neg h2] at h
+      by_cases h3 : nodeConnected w new = true
+      · rw [if_pos h3] at h; simp at h
+      · rw [if_neg h3] at h
+        simp only [Cfg.repaired, if_true] at h
+        cases hpre : adoptPre fuel w.t p new with
+        | ok =>
+          simp only [hpre] at h
+          have hadopt := (adoptPre_ok_iff _ _ _ _).mp hpre
+          cases hl : linksOf w p old new with
+          | error e => simp [hl] at h
+          | ok links =>
+            simp only [hl] at h
+            by_cases h4 : linksValid w links = false
+            · rw [if_pos h4] at h; simp at h
+            · rw [if_neg h4] at h
+              have hsh := copyIo_ok_shape (Cfg.repaired fuel) w new old true false
+              have hfl : ∀ w1, copyIo (Cfg.repaired fuel) w new old true false = (w1, .ok) →
+                  (copyPairs true w.g true (ioPairs w new old) []).2.2 = false := by
+                intro w1 hc
+                unfold copyIo at hc
+                simp only [Cfg.repaired] at hc
+                generalize copyPairs true w.g true (ioPairs w new old) [] = r at hc ⊢
+                obtain ⟨g', log, fl⟩ := r
+                cases fl with
+                | true => simp at hc
+                | false => rfl
+              simp only [Cfg.repaired] at hsh hfl
+              generalize copyIo ⟨true, true, true, true, true, true, true, fuel⟩ w new old true false = r
+                at h hsh hfl
+              obtain ⟨w1, e⟩ := r
+              cases e with
+              | ok =>
+                obtain ⟨f, hf⟩ := hsh w1 rfl
+                have hflag := hfl w1 rfl
+                dsimp only at h
+                subst hf
+                have hok := adoptRefusal_after_removal fuel w.t p old new hadopt
+                unfold commit at h
+                simp only [seated, if_true] at h
+                dsimp only at h
+                rw [hok] at h
+                simp only [if_true] at h
+                refine ⟨by simpa using h1, by simpa using h2, by simpa using h3, hadopt, links, f, rfl,
+                  by simpa using h4, hflag, ?_⟩
+                simp only [Prod.mk.injEq, and_true] at h
+                rw [← h]
+                unfold tAfter
+                simp only [decide_eq_true_eq]
+                split <;> rfl
+              | _ => simp at h
+        | _ => simp [hpre] at h
+
 end PwVerif.Edit
